@@ -622,7 +622,11 @@ func r2pRebuildAll(c *Ctx, mv *r3pMoves, dl *r4pDelims) []Obligation {
 	r := &travRun{c: c, m: m, tc: newTravCollector(m), hasUnit: map[string]bool{}}
 	var obs []Obligation
 	keyCount := map[string]int{}
-	for _, rel := range []string{"homescript/optimizer", "homescript/fuzzer"} {
+	pkgs := []string{"homescript/optimizer", "homescript/fuzzer"}
+	if dl != nil && len(dl.pkgs) > 0 {
+		pkgs = dl.pkgs
+	}
+	for _, rel := range pkgs {
 		if !c.HasPkg(rel) {
 			continue
 		}
